@@ -156,6 +156,12 @@ def write_dir(d: D, path, rng, entity_links):
         if fn in d.page_copy:
             meta.append(f"copy_subdir: {d.page_copy[fn]}")
         body = [f"Page {fn} in {d.name}.", f"[index](index.html) [top]({up}index.html) [alias](|page|/index.html) [media](|media|/logo.png)", entity_links]
+        if not title and fn not in d.page_copy:
+            # other ways of having no title: an empty file (a placeholder), blanks only, text without any metadata
+            variant = int(core.h([fn, d.name])[:4], 16) % 4
+            if variant in (1, 2, 3):
+                open(os.path.join(path, fn), "w", encoding=ENC["name"]).write({1: "", 2: "  \n\n   \n", 3: "Just some text, no metadata at all.\n\nSecond paragraph.\n"}[variant])
+                continue
         open(os.path.join(path, fn), "w", encoding=ENC["name"]).write("\n".join(meta) + "\n\n" + "\n\n".join(body) + "\n")
     for f in d.files:
         open(os.path.join(path, f), "wb").write(os.urandom(16) + f.encode())
